@@ -128,8 +128,8 @@ class Recorder:
             ranges.append((0, geo.dims[k] - 1) if rg is None else (min(rg), max(rg)))
         if self.depth == 0:
             self.steps.append(fw)          # (nested calls: opposite environments of the full-bond mode)
-        blocks, bonds = observe_boundary(tn, geo, ranges, ax)
-        rec = {"ev": "handover", "what": "boundary", "side": fw, "blocks": blocks, "bonds": bonds}
+        blocks, bonds, wbonds = observe_boundary(tn, geo, ranges, ax, lat.edges)
+        rec = {"ev": "handover", "what": "boundary", "side": fw, "blocks": blocks, "bonds": bonds, "wbonds": wbonds}
         if lat.watch_value:
             dang, v = U.tn_value(tn)
             if dang == 0:
@@ -174,7 +174,20 @@ class Recorder:
                 tb = tn.tag_map.get(tn.site_tag(*k2), ())
                 sz, n = U.group_bond(tn, ta, tb)
                 bonds.append([idx[k], idx[k2], sz])
-        rec = {"ev": "handover", "what": "hotrg", "side": direction, "blocks": blocks, "bonds": bonds}
+        wbonds = []
+        for k in keys:
+            for b in range(len(dims1)):
+                if b == ax or dims1[b] < 3 or k[b] != dims1[b] - 1:
+                    continue
+                k2 = list(k)
+                k2[b] = 0
+                k2 = tuple(k2)
+                if k2 not in idx:
+                    continue
+                if U.cross(lat.edges, set(blocks[idx[k] - 1]), set(blocks[idx[k2] - 1])) > 1:
+                    sz, n = U.group_bond(tn, tn.tag_map.get(tn.site_tag(*k), ()), tn.tag_map.get(tn.site_tag(*k2), ()))
+                    wbonds.append([idx[k], idx[k2], sz])
+        rec = {"ev": "handover", "what": "hotrg", "side": direction, "blocks": blocks, "bonds": bonds, "wbonds": wbonds}
         if lat.watch_value:
             dang, v = U.tn_value(tn)
             if dang == 0:
@@ -203,14 +216,14 @@ class Recorder:
                     a, b = tuple(tids)
                     self.treemax = max(self.treemax, U.shared_size(tn.tensor_map[a], tn.tensor_map[b]))
             return
-        rec = {"ev": "handover", "what": "tree", "side": "", "blocks": [], "bonds": []}
+        rec = {"ev": "handover", "what": "tree", "side": "", "blocks": [], "bonds": [], "wbonds": []}
         dang, v = U.tn_value(tn)
         if dang == 0:
             U.put_value(rec, "value", v)
             self.emit(rec)
 
 
-def observe_boundary(tn, geo, ranges, ax):
+def observe_boundary(tn, geo, ranges, ax, edges):
     """blocks of sites merged into the boundary groups of the lines ranges[ax], and the sizes of the bonds
     between neighbouring groups (the bonds the step compresses); groups are addressed by site tags"""
     import itertools
@@ -242,7 +255,24 @@ def observe_boundary(tn, geo, ranges, ax):
             # (a bond of size one may have been squeezed away: the pair is still a compressed bond, of size 1)
             sz, n = U.group_bond(tn, groups[k] - groups[k2], groups[k2] - groups[k])
             bonds.append([idx[k], idx[k2], sz])
-    return blocks, bonds
+    # periodic direction along the boundary: the wrap-around bond is compressed by the graph based schemes (and not by
+    # the 'mps' sweep): it counts for the exact bond size of the run, not for CapRespected
+    wbonds = []
+    for k in order:
+        for b in range(len(others)):
+            L = geo.dims[others[b]]
+            if L < 3 or k[b] != L - 1:
+                continue
+            k2 = list(k)
+            k2[b] = 0
+            k2 = tuple(k2)
+            if k2 not in idx:
+                continue
+            # (decided by the geometry, not by a shared label: lazily inserted projectors carry no site tag)
+            if U.cross(edges, set(blocks[idx[k] - 1]), set(blocks[idx[k2] - 1])) > 1:
+                sz, n = U.group_bond(tn, groups[k] - groups[k2], groups[k2] - groups[k])
+                wbonds.append([idx[k], idx[k2], sz])
+    return blocks, bonds, wbonds
 
 
 # =============================================================================== one lattice = one trace
@@ -493,7 +523,7 @@ def dry_need(lat, call):
     need = rec.treemax
     for e in rec.events:
         if e["ev"] == "handover":
-            for a, b, _ in e["bonds"]:
+            for a, b, _ in e["bonds"] + e["wbonds"]:
                 need = max(need, U.cross(lat.edges, set(e["blocks"][a - 1]), set(e["blocks"][b - 1])))
         elif e["ev"] == "compress":
             need = max(need, U.cross(lat.edges, set(e["a"]), set(e["b"])))
